@@ -18,7 +18,8 @@ def random_rate(rng, maxcap_fc):
         if fam == "int":
             n, d = rng.choice([1, 10, 100, 1000, 48000, 200000, 1000000, 25000000, rng.randint(1, 2**32 - 1)]), 1
         elif fam == "third":
-            n, d = rng.randint(1, 10**7) * rng.choice([1, 10, 1000]) % (2**32) or 10, 3
+            n, d = rng.choice([rng.randint(1, 10**7) * rng.choice([1, 10, 1000]) % (2**32) or 10,
+                               1000000, 500000, 250000, 125000, 100000, 2000000, 10000000, 200, 100, 10]), 3
         elif fam == "seventh":
             n, d = rng.randint(1, 2**32 - 1), 7
         elif fam == "x1001":
